@@ -79,7 +79,8 @@ inductive SatV (E : Env) (A : Assign) : VPat → Option ValueId → Prop
       (∀ x, v = some x → E.g.isForeign x = false) →
       alts[i]? = some alt →
       SatV E A alt v →
-      (∀ t, tagVar = some t → ∃ tg, tags[i]? = some tg ∧ A.names t = some (.tag tg)) →
+      -- `tags` has the length of `alts` by construction (`BacktrackingOr.__init__` enforces it)
+      (∀ t, tagVar = some t → A.names t = some (.tag (tags.getD i 0))) →
       SatV E A (.orB id name tagVar tags alts) v
 /-- node pattern `np` describes graph node `n` under assignment `A` -/
 inductive SatN (E : Env) (A : Assign) : NPId → NodeId → Prop
@@ -140,24 +141,48 @@ def SA.bindV (a : SA) (p : GPat) (vp : VPat) (v : Option ValueId) : Option SA :=
       | some v' => if v' = v then some a else none
       | none => some { a with leaf := a.leaf ++ [(k, v)] }
 
+/-- the assignment a search state stands for -/
+def SA.assign (a : SA) : Assign :=
+  { names := fun k => a.names.lookup k
+    node := fun np => a.node.lookup np
+    leaf := fun k => a.leaf.lookup k }
+
 def solveAttrs (n : GNode) : List (String × APat) → SA → Option SA
   | [], a => some a
   | (name, ap) :: rest, a =>
-    let av := n.attr name
-    let good := match av with
-      | none => ap.canNone
-      | some x => ap.matches x.val
-    if !good then none else
+    if attrBad n name ap then none else
     match ap.name with
     | none => solveAttrs n rest a
-    | some nm => (a.bindName nm (Bound.ofAttr av)).bind (solveAttrs n rest)
+    | some nm =>
+      match a.bindName nm (Bound.ofAttr (n.attr name)) with
+      | none => none
+      | some a' => solveAttrs n rest a'
 
 def solveOutputs (p : GPat) (np : NPId) (gouts : List ValueId) : List (Option String) → Nat → SA → Option SA
   | [], _, a => some a
   | _ :: rest, i, a =>
     match gouts[i]? with
     | none => none
-    | some x => (a.bindV p (.out np i) (some x)).bind (solveOutputs p np gouts rest (i + 1))
+    | some x =>
+      match a.bindV p (.out np i) (some x) with
+      | none => none
+      | some a' => solveOutputs p np gouts rest (i + 1) a'
+
+/-- value `x` is output `idx` of a node that node pattern `np` describes -/
+def solveOut (E : Env) (rec : NPId → NodeId → SA → List SA) (np : NPId) (idx : Nat) (x : ValueId)
+    (a : SA) : List SA :=
+  match E.g.producer x with
+  | none => []
+  | some n =>
+    if E.g.index x != some idx then [] else
+    match a.bindV E.p (.out np idx) (some x) with
+    | none => []
+    | some a' => rec np n a'
+
+def bindTag (tagVar : Option String) (t : Int) (a : SA) : Option SA :=
+  match tagVar with
+  | some tv => a.bindName tv (.tag t)
+  | none => some a
 
 def solveInputs (sv : VPat → Option ValueId → SA → List SA) :
     List (Option VPat) → Nat → GNode → SA → List SA
@@ -181,43 +206,32 @@ def solveV (E : Env) (rec : NPId → NodeId → SA → List SA) (vp : VPat) (v :
     | some x =>
       match E.g.constOf x with
       | none => []
-      | some cv => if constOk E.close c cv then (a.bindV E.p (.const id c) v).toList else []
+      | some cv => if constOk E.close c cv then (a.bindV E.p (.const id c) (some x)).toList else []
   | .out np idx =>
     match v with
     | none => []
-    | some x =>
-      match E.g.producer x with
-      | none => []
-      | some n =>
-        if E.g.index x != some idx then [] else
-        (a.bindV E.p (.out np idx) v).toList.flatMap (rec np n)
+    | some x => solveOut E rec np idx x a
   | .orD id name tagVar alts =>
     match v with
     | none => []
     | some x =>
-      match getDispatch E.g alts x, E.g.producer x with
-      | some d, some n =>
-        if E.g.index x != some d.idx then [] else
-        ((a.bindV E.p (.orD id name tagVar alts) v).bind
-          (fun a => a.bindV E.p (.out d.np d.idx) v)).toList.flatMap (fun a =>
-            (rec d.np n a).filterMap (fun a =>
-              match tagVar with
-              | some t => a.bindName t (.tag d.tag)
-              | none => some a))
-      | _, _ => []
+      match getDispatch E.g alts x with
+      | none => []
+      | some d =>
+        match a.bindV E.p (.orD id name tagVar alts) (some x) with
+        | none => []
+        | some a1 => (solveOut E rec d.np d.idx x a1).filterMap (bindTag tagVar d.tag)
   | .orB id name tagVar tags alts =>
-    (a.bindV E.p (.orB id name tagVar tags alts) v).toList.flatMap (fun a =>
-      solveAlts E rec alts tags tagVar v a)
+    match a.bindV E.p (.orB id name tagVar tags alts) v with
+    | none => []
+    | some a1 => solveAlts E rec alts tags tagVar v a1
 
 def solveAlts (E : Env) (rec : NPId → NodeId → SA → List SA) (alts : List VPat) (tags : List Int)
     (tagVar : Option String) (v : Option ValueId) (a : SA) : List SA :=
   match alts with
   | [] => []
   | alt :: rest =>
-    ((solveV E rec alt v a).filterMap (fun a' =>
-      match tagVar with
-      | some t => a'.bindName t (.tag (tags.headD 0))
-      | none => some a'))
+    ((solveV E rec alt v a).filterMap (bindTag tagVar (tags.headD 0)))
     ++ solveAlts E rec rest tags.tail tagVar v a
 end
 
@@ -256,27 +270,23 @@ def solveOutNodes (E : Env) : List NPId → SA → List SA
     (List.range E.g.nodes.length).flatMap (fun n =>
       (solveN E E.p.fuel np n a).flatMap (solveOutNodes E rest))
 
+def solveStarts (E : Env) (root : NodeId) : List SA :=
+  match E.p.outputNodes with
+  | [] => [{}]
+  | np :: rest => (solveN E E.p.fuel np root {}).flatMap (solveOutNodes E rest)
+
+/-- graph nodes the pattern nodes are mapped to -/
+def SA.matched (a : SA) : List NodeId := (a.node.map (·.2)).eraseDups
+
+def finishSol (E : Env) (rm : Bool) (a : SA) : Option Sol :=
+  match E.p.outputs.mapM (a.assign.outputOf E.p) with
+  | none => none
+  | some outs =>
+    if rm && !validToReplace E.g a.matched outs then none
+    else some { names := bindInputs E.p.inputs a.names, outputs := outs, nodes := a.matched }
+
 /-- all instances of the pattern whose first output node is mapped to `root` -/
 def solve (E : Env) (root : NodeId) (rm : Bool) : List Sol :=
-  if !E.p.cond then [] else
-  let starts : List SA :=
-    match E.p.outputNodes with
-    | [] => [{}]
-    | np :: rest => (solveN E E.p.fuel np root {}).flatMap (solveOutNodes E rest)
-  starts.filterMap (fun a =>
-    let outs := E.p.outputs.mapM (fun vp =>
-      match E.p.vname vp with
-      | some nm => a.names.lookup nm
-      | none => (vp.key.bind (fun k => a.leaf.lookup k)).map Bound.ofVal)
-    match outs with
-    | none => none
-    | some outs =>
-      let nodes := (a.node.map (·.2)).eraseDups
-      if rm && !validToReplace E.g nodes outs then none else
-      let names := E.p.inputs.foldl (fun bs i =>
-        match i with
-        | some nm => if (bs.lookup nm).isSome then bs else bs ++ [(nm, Bound.none)]
-        | none => bs) a.names
-      some { names := names, outputs := outs, nodes := nodes })
+  if !E.p.cond then [] else (solveStarts E root).filterMap (finishSol E rm)
 
 end OV.C06
